@@ -1571,7 +1571,10 @@ def c12_cases(rng, n_cfg):
             for cap in caps:
                 body += ["wdev %d 0 0 0" % cap, "writef %s" % hx(b"o%d_%d.cfg" % (fs_opt, cap)), "dump"]
                 stats["faults"] += 1
-            for (fsf, clf, opf) in ((1, 0, 0), (0, 1, 0), (0, 0, 1), (1, 1, 0)):
+            # (a failing fsync reports EIO (1), EINVAL (2), ENOSYS (3) or ENOTSUP (4); each kind is followed by an EIO
+            #  failure: what an earlier failure was must not change how the next one is reported)
+            for (fsf, clf, opf) in ((1, 0, 0), (0, 1, 0), (0, 0, 1), (1, 1, 0), (2, 0, 0), (1, 0, 0), (3, 0, 0), (1, 0, 0),
+                                    (4, 0, 0), (1, 0, 0), (0, 1, 0)):
                 body += ["wdev -1 %d %d %d" % (fsf, clf, opf), "writef %s" % hx(b"f%d%d%d%d.cfg" % (fs_opt, fsf, clf, opf)), "dump"]
                 stats["faults"] += 1
             body += ["wdev -1 0 0 0", "writef %s" % hx(b"ok%d.cfg" % fs_opt), "dump", "fs cat %s" % hx(b"ok%d.cfg" % fs_opt)]
@@ -3264,6 +3267,29 @@ def run_c10(ctx):
     keep = lambda l: l if l.startswith(("R ", "T ", "E ")) else None
     correspond(ctx, res, cases, line_filter=keep, oracle=c10_oracle_factory(meta),
                known=lambda s, r, o: match_known("C10", s, r, o), per_proc=8)
+    # many failing reads inside included files, then a valid include, in a process that may hold only 48 descriptors
+    # (DRV_NOFILE): a failure that leaves streams open makes a later include impossible
+    if rc is None and not res.violations:
+        hist = ["init", "fs put %s %s" % (hx(b"cyc.cfg"), hx(b"a = 1;\n@include \"cyc.cfg\"\n")),
+                "fs put %s %s" % (hx(b"bad.cfg"), hx(b"b = 1;\nc = = 2;\n")),
+                "fs put %s %s" % (hx(b"top.cfg"), hx(b"t = 1;\n@include \"bad.cfg\"\n")),
+                "fs put %s %s" % (hx(b"in.cfg"), hx(b"x = 7;\n")),
+                "fs put %s %s" % (hx(b"ok.cfg"), hx(b"first = 1;\n@include \"in.cfg\"\nlast = 2;\n"))]
+        for k in range(12):
+            hist += ["readf %s" % hx(b"cyc.cfg"), "readf %s" % hx(b"top.cfg"), "reads %s" % hx(b"@include \"top.cfg\"\n")]
+        hist += ["readf %s" % hx(b"ok.cfg"), "dump", "reads %s" % hx(b"p = 0;\n@include \"ok.cfg\"\n"), "dump"]
+        script = "\n".join(hist) + "\n"
+        rr = run_single(ctx.runner("asan"), script, line_filter=keep, impl_env={"DRV_NOFILE": "48"})
+        res.evaluations += 1
+        oks = [l for l in rr["impl"] if l.startswith("R i")][-2:]
+        if rr["diff"] is not None or oks != ["R i1", "R i1"]:
+            text = "# property C10 -- reads that fail inside included files, then a valid include (descriptor limit 48: DRV_NOFILE=48)\n%s#--- problem: %s; the last two reads answered %s\n#--- impl transcript (tail):\n#%s\n" % (
+                script, rr["diff"], oks, "\n#".join(rr["impl"][-14:]))
+            if oks != ["R i1", "R i1"]:
+                res.violations.append(dict(name="nofile_history", replay=text))
+            else:
+                res.corr_broken.append(text)
+        res.distribution["descriptor_limit_histories"] = 1
     # known finding F13: replay the witness on the implementation
     runner = ctx.runner()
     w = ("init\nfs put %s %s\nincfn multi %s,%s\nreads %s\ndump\n" % (
